@@ -867,6 +867,8 @@ def run(ctx):
     check_factory_optional_deref(ctx)
     check_table_lookup_results(ctx)
     check_library_value_errors(ctx)
+    from .c05 import check_big_integer_columns
+    check_big_integer_columns(ctx, 'C13.R14', ' (shared with C05.R13)')
     ctx.not_decided += ['implicit exceptions of third-party code for particular values (cryptography rejecting a nonce length, unpadding failure with a wrong key)']
     ctx.assumptions += ['requests reach the engine only through the decoders (wire-decoded provenance): field types are those the decoders construct',
                         'TypeError raises in pie validate() are infeasible for decoder-typed values; ValueError raises depend on values and are feasible']
